@@ -38,6 +38,9 @@ struct Script {
     /// after the script is exhausted: accept at most this many bytes per call
     then_chunk: usize,
     vectored: bool,
+    /// after the script is exhausted every other call is Interrupted (a signal-happy process
+    /// writing to a slow device): any number of those is no hard error
+    then_interrupting: bool,
 }
 
 struct ScriptedWrite {
@@ -48,6 +51,7 @@ struct ScriptedWrite {
     zeros: usize,
     /// write calls made after a hard error had been returned (the entry must have been given up)
     calls_after_hard_error: usize,
+    interruptions: usize,
     /// the writer serves ONE entry: after a hard error it keeps failing and counts further calls
     single_entry: bool,
 }
@@ -65,7 +69,7 @@ fn hard_error() -> io::Error {
 
 impl ScriptedWrite {
     fn new(script: Script) -> Self {
-        ScriptedWrite { script, call: 0, got: Default::default(), hard_errors: 0, zeros: 0, calls_after_hard_error: 0, single_entry: false }
+        ScriptedWrite { script, call: 0, got: Default::default(), hard_errors: 0, zeros: 0, calls_after_hard_error: 0, interruptions: 0, single_entry: false }
     }
     fn step(&mut self) -> Step {
         if self.single_entry && self.hard_errors > 0 {
@@ -75,7 +79,11 @@ impl ScriptedWrite {
                 return Step::Hard;
             }
         }
-        let s = self.script.steps.get(self.call).copied().unwrap_or(Step::Accept(self.script.then_chunk));
+        let mut s = self.script.steps.get(self.call).copied().unwrap_or(Step::Accept(self.script.then_chunk));
+        if self.script.then_interrupting && self.call >= self.script.steps.len() && (self.call - self.script.steps.len()) % 2 == 0 {
+            s = Step::Interrupted;
+            self.interruptions += 1;
+        }
         self.call += 1;
         s
     }
@@ -317,7 +325,7 @@ fn bytes_part(args: &Args, rep: &Report, budget: Duration) {
                         let mut k = 1;
                         while k <= total {
                             rep.eval();
-                            let script = Script { steps: vec![Step::Accept(k)], then_chunk: usize::MAX, vectored };
+                            let script = Script { steps: vec![Step::Accept(k)], then_chunk: usize::MAX, vectored, then_interrupting: false };
                             if !bytes_case(&mut emf, &cfg, &e, &script, false, rep) {
                                 return;
                             }
@@ -338,7 +346,7 @@ fn bytes_part(args: &Args, rep: &Report, budget: Duration) {
                                 _ => Step::Accept(1 + rng.usize_below(total.max(2))),
                             })
                             .collect();
-                        let script = Script { steps, then_chunk: *rng.pick(&[1usize, 7, 64, 4096, usize::MAX]), vectored: rng.bool() };
+                        let script = Script { steps, then_chunk: *rng.pick(&[1usize, 7, 64, 4096, usize::MAX]), vectored: rng.bool(), then_interrupting: rng.below(4) == 0 };
                         rep.eval();
                         let mut h = Fnv::new();
                         h.str(&format!("{:?}", script.steps.iter().map(std::mem::discriminant).collect::<Vec<_>>())).u64(script.vectored as u64).u64(shape as u64);
@@ -349,6 +357,19 @@ fn bytes_part(args: &Args, rep: &Report, budget: Duration) {
                         if !bytes_case(&mut emf, &cfg, &e, &script, rng.below(3) == 0, rep) {
                             return;
                         }
+                    }
+                    // a long record (several KiB) through a writer that takes one to three bytes at a
+                    // time and is interrupted before every successful call: thousands of Interrupted
+                    // results for one line, never two in a row, and no hard error
+                    if !is_miri() {
+                        let mut long = e.clone();
+                        long.ops.push(POp::Value("Padding".into(), PVal::Str("0123456789abcdef".repeat(100 + rng.usize_below(300)))));
+                        let script = Script { steps: vec![], then_chunk: 1 + rng.usize_below(3), vectored: rng.bool(), then_interrupting: true };
+                        rep.eval();
+                        if !bytes_case(&mut emf, &cfg, &long, &script, rng.below(3) == 0, rep) {
+                            return;
+                        }
+                        rep.count("long_records_through_an_always_interrupted_slow_writer", 1);
                     }
                 }
             });
@@ -619,7 +640,7 @@ fn sinks_part(args: &Args, rep: &Report, rounds: u64) {
         let fail_entry = rng.below(4) as usize;
         let steps: Vec<Step> = (0..fail_entry * 50).map(|_| Step::Accept(usize::MAX)).chain([Step::Hard]).collect();
         // the writer fails exactly once, at its (fail_entry*50)-th call or never if the entries need fewer calls
-        let w = ScriptedWrite::new(Script { steps, then_chunk: usize::MAX, vectored: true });
+        let w = ScriptedWrite::new(Script { steps, then_chunk: usize::MAX, vectored: true, then_interrupting: false });
         let got = w.got.clone();
         let mut stream = cfg.build().output_to(w);
         let mut oks = 0;
